@@ -24,6 +24,8 @@ type replayFile struct {
 	Label  string            `json:"label"`
 	Nondet map[string]uint64 `json:"nondet"`
 	Bounds map[string]int    `json:"bounds"`
+	// ids of the known findings that are listed as open: only these attribute a failure to a finding
+	KnownOpen []string `json:"known_open"`
 }
 
 var (
@@ -138,7 +140,11 @@ func Assert(label string, cond bool) {
 	apiMu.Lock()
 	defer apiMu.Unlock()
 	for _, r := range regs {
-		if r.in {
+		open := false
+		for _, id := range replay.KnownOpen {
+			open = open || id == r.id
+		}
+		if r.in && open {
 			Knowns = append(Knowns, r.id+" "+label)
 			panic(stop{"known finding " + r.id})
 		}
